@@ -3,7 +3,7 @@
 From Coq Require Import ZArith NArith List Bool Lia.
 Import ListNotations.
 From PG Require Import Common.Tactics Model.SymCoreDefs Model.SymCoreOps Model.SymCoreSpec Model.SymCoreC02
-     Proofs.SymCoreBase Proofs.SymCoreWF Proofs.SymCoreWFOps Proofs.SymCoreClone Proofs.SymCoreC02Read
+     Proofs.SymCoreBase Proofs.SymCoreWF Proofs.SymCoreWFOps Proofs.SymCoreClone Proofs.SymCoreIds Proofs.SymCoreC02Read
      Proofs.SymCoreC02Frame Proofs.SymCoreC02Prim Proofs.SymCoreC02List Proofs.SymCoreC02Dict Proofs.SymCoreC02Step
      Proofs.SymCoreC02Slice Proofs.SymCoreC02WF.
 From PG Require Model.PyList Model.PyDict.
@@ -31,12 +31,12 @@ Qed.
 Theorem constructed_root : forall k fl lits,
   f_sealed fl = false -> lit_valid (LitNode k fl false lits) = true ->
   exists its, at_is (init_forest [LitNode k fl false lits] empty_state) (0%nat, []) 1%N k None fl its /\ clean its /\
-              wfs (init_forest [LitNode k fl false lits] empty_state) /\
+              WFI (init_forest [LitNode k fl false lits] empty_state) /\
               eitems its = pitems (plit (LitNode k fl false lits)).
 Proof.
   intros k fl lits NS V.
-  assert (W : wfs (init_forest [LitNode k fl false lits] empty_state)).
-  { apply init_forest_wfs. constructor. change (forallb lit_valid [LitNode k fl false lits]) with (lit_valid (LitNode k fl false lits) && true). rewrite V. reflexivity. }
+  assert (W : WFI (init_forest [LitNode k fl false lits] empty_state)).
+  { apply init_forest_WFI. apply empty_WFI. change (forallb lit_valid [LitNode k fl false lits]) with (lit_valid (LitNode k fl false lits) && true). rewrite V. reflexivity. }
   pose proof (build_erase (LitNode k fl false lits) false None [] 1%N) as BE.
   unfold init_forest in *. simpl next_id in *.
   destruct (build false None [] (LitNode k fl false lits) 1%N) as [n nx] eqn:B.
@@ -73,6 +73,6 @@ Theorem history_of_constructed_dict : forall fl lits h,
 Proof.
   intros fl lits h NS V OK.
   destruct (constructed_root KDict fl lits NS V) as (its & R & C & W & E).
-  rewrite <- E in *. eapply history_dict_erase; eauto. apply anc_clean_root.
+  rewrite <- E in *. eapply history_dict_erase; eauto; [apply W | apply anc_clean_root].
 Qed.
 End FromLiteral.
